@@ -131,10 +131,18 @@ func init() {
 		id:    "C14",
 		level: "model_checking",
 		rule: "every word of ≤ N segments (N=6 quick, 7 thorough) over the 8 segment kinds × IFS ∈ {unset, default, ' ,', ',', ':', '', 'é,'} × realisations {literal parts, $var parts, single-quoted}; " +
-			"non-trivial = the rule yields ≥ 2 fields (the word really is cut)",
+			"plus histories on ONE environment: every sequence of ≤ 3 (thorough 4) IFS settings with 5 probe words (literal and through a variable) expanded after each change, and every pair (IFS₁, probe) → (IFS₂, word ≤ 3 characters over {a space , : é tab}); " +
+			"non-trivial = the rule yields ≥ 2 fields (the word really is cut), and every history",
 		assume: []string{"reference splitter written from the property statement (c14Ref)", "NoGlob set so that pathname expansion does not interfere; words are AST values (white space cannot be written literally)"},
 		run:    c14Run,
 		replay: func(raw json.RawMessage) error {
+			var h c14History
+			if err := json.Unmarshal(raw, &h); err == nil && len(h.Steps) > 0 {
+				if d := c14HistJudge(h); d != "" {
+					return fmt.Errorf("%s", d)
+				}
+				return nil
+			}
 			var c c14Case
 			if err := json.Unmarshal(raw, &c); err != nil {
 				return err
@@ -220,5 +228,128 @@ func c14Run(w *W) {
 			}
 		}
 		rec()
+	}
+	c14Histories(w, ifsList, n-3)
+}
+
+type c14Step struct {
+	IFS    string `json:"ifs"`
+	IFSSet bool   `json:"ifs_set"`
+	Word   string `json:"word"`
+	Var    bool   `json:"through_variable"`
+}
+
+type c14History struct {
+	Steps []c14Step `json:"history"`
+}
+
+// c14HistJudge replays a history on ONE environment: each step sets (or unsets) IFS and expands one unquoted
+// word; every step is compared with the rule for the IFS value in force at that step.
+func c14HistJudge(h c14History) string {
+	env := interp.NewExecEnv("sh")
+	env.Opts = interp.NoGlob
+	for i, st := range h.Steps {
+		if st.IFSSet {
+			env.Set("IFS", st.IFS)
+		} else {
+			env.Unset("IFS")
+		}
+		var wd ast.Word = ast.Word{&ast.Lit{Value: st.Word}}
+		if st.Var {
+			env.Set("v", st.Word)
+			wd = ast.Word{&ast.ParamExp{Name: &ast.Lit{Value: "v"}}}
+		}
+		var got []string
+		var err error
+		var pan interface{}
+		func() {
+			defer func() { pan = recover() }()
+			got, err = env.Expand(wd, 0)
+		}()
+		want := c14Ref([]c14Seg{{st.Word, false}}, st.IFS, st.IFSSet)
+		switch {
+		case pan != nil:
+			return fmt.Sprintf("step %d of %s: Expand panicked: %v", i, c14Show(h.Steps[:i+1]), pan)
+		case err != nil:
+			return fmt.Sprintf("step %d of %s: Expand failed: %v", i, c14Show(h.Steps[:i+1]), err)
+		case len(got) == 0 && len(want) == 0:
+		case !reflect.DeepEqual(got, want):
+			return fmt.Sprintf("step %d of the history %s on one environment: Expand(%q) under IFS=%q(set=%v) gives %q, the rule gives %q", i, c14Show(h.Steps[:i+1]), st.Word, st.IFS, st.IFSSet, got, want)
+		}
+	}
+	return ""
+}
+
+func c14Show(steps []c14Step) string {
+	var b strings.Builder
+	for _, st := range steps {
+		if st.IFSSet {
+			fmt.Fprintf(&b, "IFS=%q; ", st.IFS)
+		} else {
+			b.WriteString("unset IFS; ")
+		}
+		fmt.Fprintf(&b, "expand %q (variable=%v); ", st.Word, st.Var)
+	}
+	return b.String()
+}
+
+// c14Histories: IFS changes between expansions on the same environment (state carried from call to call).
+func c14Histories(w *W, ifsList []struct {
+	v   string
+	set bool
+}, depth int) {
+	probes := []string{"a b,c:d\u00e9e\tf\ng", " a ", ",a,", "::", "a\u00e9,b c"}
+	var small []string
+	genRunes([]rune("a ,:\u00e9\t"), 3, func(r []rune) {
+		if len(r) > 0 {
+			small = append(small, string(r))
+		}
+	})
+	run := func(h c14History) {
+		w.Count("evaluations", 1)
+		w.Count("histories", 1)
+		w.Count("transitions", int64(len(h.Steps)))
+		w.Count("traces_validated_against_impl", 1)
+		w.Count("distinct_nontrivial", 1)
+		if d := c14HistJudge(h); d != "" {
+			w.Violation("", h, d)
+		}
+	}
+	// (a) every sequence of ≤ depth IFS settings, the probe words expanded after each change
+	var rec func(cur []c14Step)
+	rec = func(cur []c14Step) {
+		if len(cur)/len(probes)/2 == depth {
+			return
+		}
+		for _, ifs := range ifsList {
+			next := append([]c14Step{}, cur...)
+			for _, v := range []bool{false, true} {
+				for _, p := range probes {
+					next = append(next, c14Step{ifs.v, ifs.set, p, v})
+				}
+			}
+			if w.Mine() {
+				w.Count("states", 1)
+				run(c14History{next})
+			}
+			rec(next)
+		}
+	}
+	rec(nil)
+	// (b) every pair (IFS₁, probe) then (IFS₂, word ≤ 3 characters over {a space , : é tab})
+	for _, i1 := range ifsList {
+		for _, p := range probes {
+			for _, i2 := range ifsList {
+				if !w.Mine() {
+					continue
+				}
+				w.Count("states", 1)
+				for _, sm := range small {
+					for _, v := range []bool{false, true} {
+						run(c14History{[]c14Step{{i1.v, i1.set, p, v}, {i2.v, i2.set, sm, v}}})
+					}
+				}
+			}
+		}
 	}
 }
